@@ -57,11 +57,12 @@ class VBool(V):
 
 
 class VStr(V):
-    def __init__(self, t):
+    def __init__(self, t, template=None, holes=()):
         self.t = z3.StringVal(t) if isinstance(t, str) else t
+        self.template, self.holes = template, tuple(holes)  # f-string shape (used to identify LP variables)
 
     def map_terms(self, fn):
-        return VStr(fn(self.t))
+        return VStr(fn(self.t), self.template, [h.map_terms(fn) for h in self.holes])
 
     def __repr__(self):
         return f"VStr({self.t})"
@@ -167,7 +168,7 @@ class VLin(V):
 
     def __init__(self, t, var=None):
         self.t = t
-        self.var = var  # (site, keyterm) when this is a bare variable
+        self.var = var  # LPVar-sorted term when this is a bare variable
 
     def map_terms(self, fn):
         v = self.var
@@ -282,6 +283,16 @@ class HPyDict(H):
 
     def map_terms(self, fn):
         return HPyDict([(_m(k, fn), _m(v, fn)) for k, v in self.items], self.default)
+
+
+class HBag(H):
+    """Comprehension-shaped list whose order is unspecified (result of appends inside a summarised loop)."""
+
+    def __init__(self, binders, guard, elem):
+        self.binders, self.guard, self.elem = tuple(binders), guard, elem
+
+    def map_terms(self, fn):
+        return HBag(self.binders, fn(self.guard), _m(self.elem, fn))
 
 
 class HSet(H):
